@@ -306,6 +306,38 @@ Proof.
   exists (Nat.max f (merge_fuel acc (convp x))). split; [lia|]. apply (list_fuel_ok_more f); [lia|exact Hf].
 Qed.
 
+(* ---- try_from_iter / try_from_list (C11): total on legal sets; Ok exactly on pairwise disjoint inputs,
+   and then a well-formed partition whose intervals are the input sets; order-independent ---- *)
+Lemma gvalid_end l : Forall gvalid l -> Forall valid_end l.
+Proof.
+  intros H. rewrite Forall_forall in *. intros c Hc. destruct (H c Hc) as [_ H2].
+  unfold valid_end. destruct c as [a b]. cbv [conv snd CharSet_end MAXC MAX_CHAR] in *. exact H2.
+Qed.
+Lemma gvalid_map l : Forall gvalid l -> Forall cs_valid (map conv l).
+Proof. intros H. rewrite Forall_map. exact H. Qed.
+
+Lemma g_try_from_iter_ok l : Forall gvalid l -> pairwise_disjoint (map conv l) ->
+  exists p, M_CharPartition_try_from_iter l = Some (Ok p) /\ gwf p /\ Permutation.Permutation (map conv l) (ivs (convp p)).
+Proof.
+  intros Hv Hd. pose proof (link_try_from_iter l (gvalid_end l Hv)) as H.
+  destruct (proj2 (ptry_from_list_ok_iff _ (gvalid_map l Hv)) Hd) as [p0 Hp0]. rewrite Hp0 in H.
+  destruct (M_CharPartition_try_from_iter l) as [[p|[]]|]; cbn [try_res] in H; try discriminate.
+  exists p. split; [reflexivity|]. injection H as H. unfold gwf. rewrite H.
+  apply (ptry_from_list_wf _ _ (gvalid_map l Hv) Hp0).
+Qed.
+Lemma g_try_from_iter_err l : Forall gvalid l -> ~ pairwise_disjoint (map conv l) ->
+  M_CharPartition_try_from_iter l = Some (Err Error_NonDisjointCharSets).
+Proof.
+  intros Hv Hd. pose proof (link_try_from_iter l (gvalid_end l Hv)) as H.
+  rewrite (proj2 (ptry_from_list_none_iff _ (gvalid_map l Hv)) Hd) in H.
+  destruct (M_CharPartition_try_from_iter l) as [[p|[]]|]; cbn [try_res] in H; try discriminate. reflexivity.
+Qed.
+Lemma g_try_from_list_same l : M_CharPartition_try_from_list l = M_CharPartition_try_from_iter l.
+Proof.
+  unfold M_CharPartition_try_from_list, CharPartition_try_from_list. cbv [bind].
+  destruct (M_CharPartition_try_from_iter l) as [[?|?]|]; reflexivity.
+Qed.
+
 Example g_example :
   let p := CharPartition_mk [CharSet_mk 10 20; CharSet_mk 30 40] 0 in
   gwf p /\
